@@ -81,6 +81,9 @@ def write_dataset(root, case):
             T["sample_annotation"].append(rec)
             a["token"] = rec["token"]
             aidx += 1
+    # the ROWS of the sample table need not be in time order (e.g. a later-recorded scene listed first): "dataset order" is the table's order
+    r = case.get("rot", 0) % max(n, 1)
+    T["sample"] = T["sample"][r:] + T["sample"][:r]
     T["instance"] = [dict(token=tok("ins", j), category_token=tok("cat", c), nbr_annotations=len(per_inst.get(j, [])),
                           first_annotation_token=per_inst[j][0]["token"] if j in per_inst else "", last_annotation_token=per_inst[j][-1]["token"] if j in per_inst else "")
                      for j, c in enumerate(case["instances"])]
@@ -122,9 +125,13 @@ def check(case):
                     ctx = f"[{task}, {frame}, merge={merge}]"
                     if len(frames_) != len(case["samples"]):
                         return f"{ctx} {len(frames_)} frames for {len(case['samples'])} samples"
-                    for i, (fr, s) in enumerate(zip(frames_, case["samples"])):
-                        if fr.unix_time != s["t"] or fr.frame_name != str(i):
-                            return f"{ctx} frame {i}: time {fr.unix_time} / name {fr.frame_name}, sample has timestamp {s['t']}"
+                    nS = len(case["samples"])
+                    order = [(k + case.get("rot", 0) % max(nS, 1)) % nS for k in range(nS)]      # frame k is the k-th ROW of the sample table
+                    for k, fr in enumerate(frames_):
+                        i = order[k]
+                        s = case["samples"][i]
+                        if fr.unix_time != s["t"] or fr.frame_name != str(k):
+                            return f"{ctx} frame {k}: time {fr.unix_time} / name {fr.frame_name}, row {k} of the sample table is the sample stamped {s['t']}"
                         if len(fr.objects) != len(s["anns"]):
                             return f"{ctx} frame {i}: {len(fr.objects)} objects for {len(s['anns'])} annotations"
                         by_uuid = {}
@@ -193,7 +200,7 @@ def gen(rng):
                                  pts=rng.randint(0, 500), vis=rng.choice([v for v, _ in VIS]), attrs=sorted(rng.sample(range(len(ATTRIBUTES)), rng.randint(0, 2)))))
         samples.append(dict(t=t, ego=ego, anns=anns))
     return dict(samples=samples, instances=instances, lidar_channel=rng.choice(["LIDAR_TOP", "LIDAR_CONCAT"]), visibility=rng.random() < 0.85, vis_style=rng.choice(["t4", "nuscenes", "hashed"]),
-                tasks=rng.choice([["detection"], ["tracking"], ["sensing"], ["detection", "tracking"]]), merge=rng.random() < 0.4)
+                tasks=rng.choice([["detection"], ["tracking"], ["sensing"], ["detection", "tracking"]]), merge=rng.random() < 0.4, rot=rng.choice([0, 0, 1, 2]))
 
 
 def search(item, seed):
